@@ -28,7 +28,7 @@ fn decode(u: &mut Unstructured) -> arbitrary::Result<Case> {
     let n = u.int_in_range(1..=4)?;
     let mut edits = Vec::new();
     for _ in 0..n {
-        edits.push(EditSpec { kind: u.int_in_range(0..=11)?, target: u.arbitrary()?, val: u.arbitrary()?, n: u.arbitrary()? });
+        edits.push(EditSpec { kind: u.int_in_range(0..=12)?, target: u.arbitrary()?, val: u.arbitrary()?, n: u.arbitrary()? });
     }
     Ok(Case { base, raw: vec![], edits, entry })
 }
